@@ -6,6 +6,13 @@ class Span:
     __slots__ = ("t",)
     def __init__(self, t): self.t = t
     def total_seconds(self): return self.t
+    # the timedelta fields of a whole number of ticks (1 tick = 1 s): small spans only, so days == 0 unless negative
+    @property
+    def seconds(self): return self.t % 86400
+    @property
+    def days(self): return self.t // 86400
+    @property
+    def microseconds(self): return 0
     def __add__(self, o): return Span(self.t + _sp(o))
     __radd__ = __add__
     def __sub__(self, o): return Span(self.t - _sp(o))
